@@ -524,7 +524,12 @@ func VP_C02_ops() {
 	operand()
 	for i := 0; i < N; i++ {
 		op := SyntaxKind(vpInt("op"))
-		vpAssume(vpIsOpTok(op))
+		if vpParam("ALPHA") == 1 {
+			// associativity-sensitive sub-alphabet: longer chains at the same cost
+			vpAssume(op == SK_Question || op == SK_Colon || op == SK_Equals || op == SK_Comma || op == SK_Plus || op == SK_BarBar || op == SK_Asterisk)
+		} else {
+			vpAssume(vpIsOpTok(op))
+		}
 		add(op)
 		operand()
 	}
